@@ -62,6 +62,8 @@ def plan(tier, seed):
         for nh in range(1, m + 1):
             items.append(dict(layer="cond", kind="positive", arch=[nv, nh]))
             items.append(dict(layer="cond", kind="complex", arch=[nv, nh]))
+    for kind, arch in (("positive", [2, 2]), ("complex", [2, 3]), ("mixed", [2, 1, 1]), ("mixed", [1, 2, 2]), ("mixed", [2, 2, 1]), ("positive", [3, 2])):
+        items.append(dict(layer="stateful", kind=kind, arch=arch))
     mp = 3 if tier == "quick" else 4
     for nv in range(1, mp + 1):
         for nh in range(1, mp + 1):
@@ -176,9 +178,9 @@ def expected_law(Tm, scenario, k, start_rows):
     return out
 
 
-def tree_case(acc, case, scenario, k, start_rows, overwrite):
+def tree_case(acc, case, scenario, k, start_rows, overwrite, st=None):
     kind, arch, params = case["kind"], case["arch"], case["params"]
-    st = build_state(kind, arch, params)
+    st = build_state(kind, arch, params) if st is None else st
     Tm, _ = ref_kernel(kind, arch, params)
     try:
         law = run_tree(acc, st, case, scenario, k, start_rows, overwrite, Tm)
@@ -232,9 +234,11 @@ def run_tree_item(acc, item):
 # layers (i) and (iii)
 
 
-def cond_case(acc, kind, arch, params):
+def cond_case(acc, kind, arch, params, st=None, history=None):
     case = dict(kind=kind, arch=arch, params=params, layer="cond")
-    st = build_state(kind, arch, params)
+    if history is not None:
+        case["history"] = history
+    st = build_state(kind, arch, params) if st is None else st
     rbm = st.rbm_am
     n = arch[0]
     V = tbits(n)
@@ -327,8 +331,60 @@ def cond_case(acc, kind, arch, params):
     acc.states += 1
 
 
+def stateful_sequence(kind, arch):
+    from ..common import pattern, net_sizes
+    sizes = net_sizes(kind, arch)
+    seq = []
+    for q in range(5):
+        ps = [pattern(n, q, r) for r, n in enumerate(sizes)]
+        if kind == "mixed":
+            from ..common import aux_bias_slice
+            sl = aux_bias_slice(arch)
+            for t in range(sl.start, sl.stop):
+                ps[1][t] = 0.0
+        seq.append(ps)
+    return seq
+
+
+def run_stateful(acc, kind, arch, upto=None):
+    """non-initial states: a LIVE model samples, is updated in place (four styles + one real training
+    step), and must sample from the distribution of its CURRENT parameters"""
+    from ..common import update_params, UPDATE_STYLES, get_flat
+    seq = stateful_sequence(kind, arch)
+    st = build_state(kind, arch, seq[0])
+    D = 2 ** arch[0]
+    hist = []
+
+    def probe(params):
+        case = dict(kind=kind, arch=arch, params=params, history=list(hist))
+        cond_case(acc, kind, arch, params, st=st, history=list(hist))
+        tree_case(acc, case, "sample", 1, [D - 1], False, st=st)
+        tree_case(acc, case, "gibbs", 2 if 2 ** sum(arch) <= 32 else 1, [0], True, st=st)
+
+    probe(seq[0])
+    for i, style in enumerate(UPDATE_STYLES):
+        if upto is not None and i >= upto:
+            return
+        hist.append(dict(update=style, to_pattern=i + 1))
+        update_params(st, seq[i + 1], style)
+        probe(seq[i + 1])
+    if upto is None:
+        # one real optimizer step (the way training changes parameters), then probe at whatever it produced
+        import numpy as _np
+        torch.manual_seed(3)
+        data = torch.tensor(R.bits(arch[0])[: min(3, D)], dtype=torch.double)
+        kw = {} if kind == "positive" else dict(input_bases=_np.array([list("Z" * arch[0])] * len(data)))
+        st.fit(data, epochs=1, pos_batch_size=2, lr=0.3, **kw)
+        hist.append(dict(update="fit-one-epoch"))
+        probe([get_flat(getattr(st, net)) for net in st.networks])
+
+
 def run_item(item):
     acc = Acc()
+    if item["layer"] == "stateful":
+        run_stateful(acc, item["kind"], item["arch"])
+        acc.sample(dict(layer="stateful", kind=item["kind"], arch=item["arch"], updates=["copy_", "rebind", "load_state_dict", "add_", "fit"]), cap=1)
+        return acc
     if item["layer"] in ("tree", "tree-extra"):
         run_tree_item(acc, item)
         return acc
@@ -348,6 +404,9 @@ def run_item(item):
 
 def replay(case):
     acc = Acc()
+    if case.get("history"):
+        run_stateful(acc, case["kind"], case["arch"])
+        return acc
     if case.get("layer") == "cond":
         cond_case(acc, case["kind"], case["arch"], case["params"])
     else:
